@@ -298,7 +298,11 @@ type c04path struct {
 	aborted string
 }
 
-func c04Paths(c *core.Ctx, fn *ssa.Function) ([]c04path, error) {
+func c04Paths(c *core.Ctx, fn *ssa.Function) ([]c04path, error) { return c04PathsOpt(c, fn, false) }
+
+// c04PathsOpt: with inlineHelpers, unexported functions of the same package are inlined (two levels), so that rules on
+// the path signatures are insensitive to a fragment having been extracted into a helper.
+func c04PathsOpt(c *core.Ctx, fn *ssa.Function, inlineHelpers bool) ([]c04path, error) {
 	// prune branches that contradict an earlier nil test of the very same value on the same path
 	decide := func(w *paths.Walker, cond ssa.Value) int {
 		subj, neq, ok := nilTest(cond)
@@ -314,7 +318,15 @@ func c04Paths(c *core.Ctx, fn *ssa.Function) ([]c04path, error) {
 		}
 		return -1
 	}
-	ps, err := paths.Enumerate(fn, paths.Config{MaxDepth: 1, Decide: decide})
+	cfg := paths.Config{MaxDepth: 1, Decide: decide}
+	if inlineHelpers {
+		cfg.MaxDepth = 2
+		cfg.Inline = func(call *ssa.Call, callee *ssa.Function) bool {
+			return callee.Pkg == fn.Pkg && callee.Object() != nil && !callee.Object().Exported() && callee.Signature.Recv() == nil && len(callee.Blocks) > 0 &&
+				callee.Name() != "splitWithUDHI" && callee.Name() != "encodeAndSplitGSM7Packed" && callee.Name() != "newBatchEncoder"
+		}
+	}
+	ps, err := paths.Enumerate(fn, cfg)
 	if err != nil {
 		return nil, err
 	}
